@@ -247,34 +247,102 @@ func (in *Interp) knownFact(c *Term) int {
 }
 
 func (in *Interp) check(extra *Term) Verdict {
-	v := Unknown
-	for _, s := range in.pickOrder(extra) {
+	order := in.pickOrder(extra)
+	for _, s := range order {
+		s.mu.Lock()
+		s.cancelled = false
+		s.mu.Unlock()
+	}
+	// escalating time limits: first every solver that can change its limit gets a short one (a query on which one
+	// encoding times out is usually decided at once in the other), then every solver gets the full limit
+	if quick := quickTimeoutMs; len(order) > 1 && in.cfg.TimeoutMs > 2*quick {
+		for _, s := range order {
+			if s.dead || !s.SetTimeout(quick) {
+				continue
+			}
+			if v := in.checkOn(s, extra); v != Unknown {
+				in.solver = s
+				return v
+			}
+		}
+	}
+	if len(order) == 1 {
+		order[0].SetTimeout(in.cfg.TimeoutMs)
+		return in.checkOn(order[0], extra)
+	}
+	// full limit: race the solvers (each has its own process; the solver code only reads the term table); the first
+	// definite verdict wins, the others are killed and restarted lazily with the whole stack re-asserted
+	v := in.race(order, extra, in.cfg.TimeoutMs)
+	if v == Unknown {
+		// last resort before the query counts as unknown: four times the limit (a loaded machine, a hard instance)
+		v = in.race(order, extra, 4*in.cfg.TimeoutMs)
+	}
+	return v
+}
+
+func (in *Interp) race(order []*Solver, extra *Term, timeoutMs int) Verdict {
+	type res struct {
+		s *Solver
+		v Verdict
+	}
+	ch := make(chan res, len(order))
+	started := 0
+	for _, s := range order {
 		if s.dead {
 			if err := s.Restart(); err != nil {
 				continue
 			}
 		}
-		in.syncOne(s)
-		t0 := time.Now()
-		if extra == nil {
-			v = s.Check()
-		} else {
-			v = s.CheckWith(extra, in.tt)
+		if !s.SetTimeout(timeoutMs) && timeoutMs != in.cfg.TimeoutMs {
+			continue // a solver with a fixed limit does not take part in the extended round
 		}
-		if slowLogMs > 0 && time.Since(t0) > time.Duration(slowLogMs)*time.Millisecond {
-			es := ""
-			if extra != nil {
-				es = extra.String()
-				if len(es) > 300 {
-					es = es[:300]
+		s.mu.Lock()
+		s.cancelled = false
+		s.mu.Unlock()
+		started++
+		go func(s *Solver) { ch <- res{s, in.checkOn(s, extra)} }(s)
+	}
+	v := Unknown
+	for n := 0; n < started; n++ {
+		r := <-ch
+		if r.v != Unknown && v == Unknown {
+			v = r.v
+			in.solver = r.s
+			for _, o := range order {
+				if o != r.s {
+					o.Kill()
 				}
 			}
-			fmt.Fprintf(os.Stderr, "SLOW %s %v %dms pc=%d extra=%s\n", s.kind, v, time.Since(t0).Milliseconds(), len(in.path.pc), es)
 		}
-		if v != Unknown {
-			in.solver = s
-			return v
+	}
+	return v
+}
+
+const quickTimeoutMs = 1500
+
+func (in *Interp) checkOn(s *Solver, extra *Term) Verdict {
+	if s.dead {
+		if err := s.Restart(); err != nil {
+			return Unknown
 		}
+	}
+	in.syncOne(s)
+	t0 := time.Now()
+	var v Verdict
+	if extra == nil {
+		v = s.Check()
+	} else {
+		v = s.CheckWith(extra, in.tt)
+	}
+	if slowLogMs > 0 && time.Since(t0) > time.Duration(slowLogMs)*time.Millisecond {
+		es := ""
+		if extra != nil {
+			es = extra.String()
+			if len(es) > 300 {
+				es = es[:300]
+			}
+		}
+		fmt.Fprintf(os.Stderr, "SLOW %s %v %dms pc=%d extra=%s\n", s.kind, v, time.Since(t0).Milliseconds(), len(in.path.pc), es)
 	}
 	return v
 }
